@@ -215,6 +215,22 @@ def vfile_deps(vfile, seen=None):
             vfile_deps(p, seen)
     return seen
 
+def failing_statement(make_output):
+    """name of the Lemma/Theorem that encloses the position coqc reported, e.g. 'Proofs/Guards.v: Lemma guard_mat_set_col_lemma'"""
+    m = re.search(r'File "\./([^"]+)", line (\d+)', make_output)
+    if not m:
+        return None
+    path, line = os.path.join(COQDIR, m.group(1)), int(m.group(2))
+    try:
+        lines = open(path).read().split("\n")
+    except OSError:
+        return m.group(1)
+    for k in range(min(line, len(lines)) - 1, -1, -1):
+        mm = re.match(r"\s*(Theorem|Lemma|Corollary|Example|Definition|Fixpoint|Instance|Fact|Remark|Proposition)\s+([A-Za-z0-9_']+)", lines[k])
+        if mm:
+            return "%s: %s %s (line %d)" % (m.group(1), mm.group(1), mm.group(2), line)
+    return "%s line %d" % (m.group(1), line)
+
 def proof_step(pid, extra_props=()):
     """Build Props/<pid>.vo, re-run the property file to capture Print Assumptions, audit.
     Returns dict(obligations, discharged, theorems=[(name, assumptions, ok)], errors=[...])."""
@@ -228,7 +244,9 @@ def proof_step(pid, extra_props=()):
     res["obligations"] = len(names) + 1          # + the no-admit/no-axiom audit
     rc, out = coq_make("Props/%s.vo" % pid)
     if rc != 0:
-        res["errors"].append("make Props/%s.vo failed:\n%s" % (pid, out[-3000:]))
+        where = failing_statement(out)
+        res["failed_statement"] = where
+        res["errors"].append("make Props/%s.vo failed%s:\n%s" % (pid, (" at " + where) if where else "", out[-3000:]))
         return res
     # forbidden-construct audit over every file the property depends on
     deps = sorted(vfile_deps(props))
